@@ -420,17 +420,25 @@ def main(prop, tier):
     # ---- sequential exploration judged with C03's rules (drain bound, blocked-while-drained on every transition) ----
     seq_exe = seq.build_seq(os.path.join(bdir, "seq"))
     seq_traces = []
-    for cap, nr, mw, acc in ((3, 2, 2, 1), (4, 2, 3, 0)) + (((5, 2, 4, 0), (3, 3, 2, 0)) if thorough else ()):
+    seq_cfgs = [(3, 2, 2, 1, 120000), (4, 2, 3, 0, 120000)] + ([(5, 2, 4, 0, 120000), (3, 3, 2, 0, 120000), (6, 2, 5, 0, 800000)] if thorough else [])
+    if drift and not thorough:
+        # the code no longer follows the model step by step: look deeper at once - capacities at which a write can be larger
+        # than a whole earlier lap (a parked reader then limits the writer below the request), truncated breadth-first
+        seq_cfgs += [(6, 2, 5, 0, 500000), (7, 2, 6, 0, 400000)]
+        chk.notes.append("drift: sequential exploration escalated to capacities 6 and 7")
+    for cap, nr, mw, acc, maxst in seq_cfgs:
         pre = os.path.join(bdir, "sx_%d_%d" % (cap, nr))
-        rc, out = run([seq_exe, "explore", str(cap), str(nr), str(mw), str(acc), "120000", pre, "400000"], timeout=1200)
+        rc, out = run([seq_exe, "explore", str(cap), str(nr), str(mw), str(acc), str(maxst), pre, "400000"], timeout=1200)
         try:
             r = json.loads(out.strip().splitlines()[-1])
         except Exception:
             crash_or_broken(rc, out, "chan_seq_explore", "chan_seq exploration (cap=%d readers=%d)" % (cap, nr))
         seq_traces += [pre + ".%04d.ndjson" % i for i in range(r["chunks"])]
     probes = 0
-    for t in seq_traces:
-        v3 = seq.validate_trace(t, bdir)
+    import concurrent.futures as cf3
+    with cf3.ThreadPoolExecutor(max_workers=8) as ex3:
+        verdicts3 = list(ex3.map(lambda t: seq.validate_trace(t, bdir), seq_traces))
+    for t, v3 in zip(seq_traces, verdicts3):
         probes += sum(1 for l in open(t) if '"DrainProbe"' in l)
         events += v3["consumed"]
         done3 = set()
